@@ -85,6 +85,8 @@ thread_local! {
 pub struct Stash {
     pub umount: Option<(Option<u64>, Result<(u64, u64), String>, Vec<String>)>,
     pub mount: Option<(Result<u8, String>, Vec<String>)>,
+    /// result of the LOOKUP half of a `Y` step
+    pub req: Option<(String, Vec<String>)>,
 }
 
 pub struct Bk {
@@ -624,7 +626,7 @@ impl World {
             live: BTreeMap::new(),
             slot_hist: BTreeMap::new(),
             unique: 1,
-            stash: Stash { umount: None, mount: None },
+            stash: Stash { umount: None, mount: None, req: None },
         }
     }
 
@@ -818,7 +820,57 @@ impl World {
         Ok(ctx)
     }
 
+    /// `Y:<umount path>:<uid>:<gid>:<pseudo parent>:<hex name>`: UMOUNT on one thread, parked inside
+    /// the backend's destroy(); meanwhile a second client thread LOOKs the mount path UP in the
+    /// pseudo tree.  Booked as `u:..` then `r:lookup:..` (what the lookup may see during the
+    /// teardown is the state after the umount: the mount point is taken away first).
+    pub fn run_pair_lookup(&mut self, upath: &str, rf: &[&str]) {
+        use std::sync::mpsc::sync_channel;
+        let pino = self.vfs.get_root_pseudofs().path_walk(upath).ok().flatten();
+        let (etx, erx) = sync_channel::<()>(1);
+        let (gtx, grx) = sync_channel::<()>(1);
+        *self.sh.gate.lock().unwrap() = Some((etx, grx));
+        let vfs_a = self.vfs.clone();
+        let up = upath.to_string();
+        let ta = std::thread::spawn(move || {
+            GATED.with(|g| g.set(true));
+            vfs_a.umount(&up).map_err(|e| show_vfs_err(&e))
+        });
+        let _parked = erx.recv_timeout(Duration::from_millis(300)).is_ok();
+        let uid: u32 = rf[2].parse().unwrap_or(0);
+        let gid: u32 = rf[3].parse().unwrap_or(0);
+        let ino: u64 = rf[4].parse().unwrap_or(0);
+        let name = cname(rf[5]);
+        let res = match self.ctx_for(uid, gid, ino) {
+            Err(e) => Ok(e),
+            Ok(ctx) => {
+                let vfs_b = self.vfs.clone();
+                let tb = std::thread::spawn(move || match vfs_b.lookup(&ctx, ino.into(), &name) {
+                    Ok(e) => show_entry(&e),
+                    Err(e) => show_io(&e),
+                });
+                let t0 = std::time::Instant::now();
+                while !tb.is_finished() && t0.elapsed() < Duration::from_millis(120) {
+                    std::thread::sleep(Duration::from_millis(1));
+                }
+                let _ = gtx.send(());
+                tb.join()
+            }
+        };
+        let _ = gtx.try_send(());
+        let ru = ta.join();
+        *self.sh.gate.lock().unwrap() = None;
+        let log = self.take_log();
+        let (ucalls, rcalls): (Vec<String>, Vec<String>) = log.into_iter().partition(|c| c.ends_with(".destroy"));
+        self.stash.umount = Some((pino, ru.unwrap_or_else(|_| Err("panic".to_string())), ucalls));
+        self.stash.req = Some((res.unwrap_or_else(|_| "panic".to_string()), rcalls));
+    }
+
     fn do_req(&mut self, f: &[&str]) -> String {
+        if let Some((r, calls)) = self.stash.req.take() {
+            self.sh.log.lock().unwrap().extend(calls);
+            return r;
+        }
         // r:<op>:<uid>:<gid>:<ino>:<a1>:<a2>:<ans>
         let op = f[1];
         let uid: u32 = f[2].parse().unwrap_or(0);
